@@ -27,11 +27,13 @@ void vh_ctx_close(vh_ctx_t *c) {
 static size_t root_words(const mzd_t *M) { return (size_t)M->nrows * (size_t)M->width; }
 
 static void root_copy(const mzd_t *M, word *dst) {
+  if (!M->data) return;
   for (rci_t i = 0; i < M->nrows; i++)
     memcpy(dst + (size_t)i * M->width, M->data + (size_t)i * M->rowstride, sizeof(word) * M->width);
 }
 
 static int root_same(const mzd_t *M, const word *snap) {
+  if (!M->data) return 1;
   for (rci_t i = 0; i < M->nrows; i++)
     if (memcmp(snap + (size_t)i * M->width, M->data + (size_t)i * M->rowstride, sizeof(word) * M->width))
       return 0;
